@@ -506,16 +506,24 @@ def monitor(case, api, cmds, table, cli=None):
                     reasons.append('accepted:duplicate-target')
                 seen_t.add(tg)
         by_name = {t['name']: t for t in tasks}
+        # Task objects that a creator marked as sub-task by hand are handed through unprocessed: the group clauses
+        # are about the sub-tasks the loader makes from `basename`/`name` dicts
+        handmade = set()
+        for c in case['creators']:
+            r = c['result']
+            tas = [r['t']] if r['k'] == 'task' else (
+                [it['t'] for it in flat_items(r) if it['k'] == 'task'] if r['k'] == 'gen' else [])
+            handmade.update(ta['name'] for ta in tas if ta.get('subtask_of'))
         for t in tasks:
             b = t['subtask_of']
-            if b is None:
+            if b is None or t['name'] in handmade:
                 continue
             g = by_name.get(b)
             if g is None or not g['has_subtask']:
                 reasons.append('accepted:subtask-without-group')
                 break
         for g in tasks:
-            subs = [t['name'] for t in tasks if t['subtask_of'] == g['name']]
+            subs = [t['name'] for t in tasks if t['subtask_of'] == g['name'] and t['name'] not in handmade]
             if subs and not is_subsequence(subs, g['task_dep']):
                 reasons.append('accepted:group-misses-subtask-or-order')
                 break
